@@ -284,7 +284,16 @@ def handleCall (j : Json) : Except String Json := do
   let implHoles := ((getA j "implHoles").toOption.getD []).filterMap fun x => x.getNat?.toOption
   -- fields in the order the implementation visits them: scalars, then per list its size and all its elements
   let allF := List.range scalars.size ++ lists.toList.flatMap fun l => l.sizeIdx :: l.elems
-  let r ← runCall fields tops recs limit implFinal allF (implHoles := implHoles) (semTops := some semTops)
+  -- solve_order directives, already expanded by the harness to (before, after) pairs of scalar field ids (a list stands for
+  -- its size field and its elements: `ExpandSolveOrderVisitor`)
+  let orderPairs : List (Nat × Nat) := match getOpt j "order" with
+    | some d => ((do
+        let l ← d.getArr?
+        l.toList.mapM fun t => do
+          let a ← t.getArr?
+          pure (((← (a[0]?.getD Json.null).getInt?)).toNat, ((← (a[1]?.getD Json.null).getInt?)).toNat) : Except String _).toOption).getD []
+    | none => []
+  let r ← runCall fields tops recs limit implFinal allF (implHoles := implHoles) (semTops := some semTops) (orderPairs := orderPairs)
   pure <| Json.mkObj [("call", r), ("names", jList (fun (f : Field) => Json.str f.name) fields.toList),
     ("growth", Json.arr growth.toArray),
     ("lists", jList (fun (l : LInfo) => Json.mkObj [("name", Json.str l.name), ("nelems", jNat l.elems.length), ("size", jNat l.size)]) lists.toList)]
